@@ -64,8 +64,8 @@ fn contexts(call: &str, j1: &str, j2: &str) -> Vec<(&'static str, Vec<String>, S
         ("iife-shadowing-helpers", vec![], format!("((g, mk, loc, a) => {})({}, {}, {}, {})", c, j1, j2, j1, j2), 0),
         ("iife-param-named-f", vec![], format!("((x, y) => {})({}, {})", c, j1, j2), 0),
         // the caller's parameters / locals carry the names the callee binds inside its own body
-        ("iife-shadowing-body-locals", vec![], format!("((tq, rq, cq, ks) => {})({}, {}, {}, {})", c, j1, j2, j1, j2), 0),
-        ("do-block-shadowing-body-locals", vec![], format!("do {{\n  tq = {}\n  rq = {}\n  cq = {}\n  return {}\n}}", j1, j2, j1, c), 0),
+        ("iife-shadowing-body-locals", vec![], format!("((tq, rq, cq, ks, kf, e, pi, kfw) => {})({}, {}, {}, {}, {}, {}, {}, {})", c, j1, j2, j1, j2, j1, j2, j1, j2), 0),
+        ("do-block-shadowing-body-locals", vec![], format!("do {{\n  tq = {}\n  rq = {}\n  cq = {}\n  kf = {}\n  e = {}\n  pi = {}\n  kfw = {}\n  return {}\n}}", j1, j2, j1, j2, j1, j2, j1, c), 0),
         ("do-block-shadowing", vec![], format!("do {{\n  k = {}\n  m = {}\n  g = {}\n  return {}\n}}", j1, j2, j1, c), 0),
         ("via-callback", vec![], format!("[{}] via (k => {})", j1, c), 1),
         ("via-callback-index", vec![], format!("[{}] via ((m, k) => {})", j1, c), 1),
@@ -341,7 +341,7 @@ fn site_case(tape: &[u16], j1: MV, j2: MV) -> Case {
             sc.fns.push("m".into());
         }
     }
-    let form = t.pick(31);
+    let form = t.pick(34);
     let mut expect: Option<String> = None;
     let mut body_scope = sc.clone();
     let mut call = "f(3)".to_string();
@@ -513,6 +513,30 @@ fn site_case(tape: &[u16], j1: MV, j2: MV) -> Case {
                 "f = x => keys({[ks + \"b\"]: x, a: 1})" => "[\"key!b\", \"a\"]",
                 _ => "{\"key!\": 3}",
             }.into());
+        }
+        31 => {
+            // a captured name that is only read under a postfix / prefix operator
+            defs.push("kf = 3".into());
+            defs.push(["f = x => kf! + x", "f = x => [-kf, not (kf == 3), kf!][2] + x", "f = x => (y => y + kf!)(x)"][t.pick(3)].into());
+            expect = Some("6 + 3".into());
+        }
+        32 => {
+            // captured names spelled like members of `constants`
+            defs.push("e = 10".into());
+            defs.push("pi = 20".into());
+            defs.push(["f = x => x + e + pi", "f = x => [e, pi, x]", "f = x => (y => y + e)(x) + pi"][t.pick(3)].into());
+            expect = Some(match defs.last().unwrap().as_str() {
+                "f = x => [e, pi, x]" => "[10, 20, 3]",
+                "f = x => x + e + pi" => "3 + 10 + 20",
+                _ => "(3 + 10) + 20",
+            }.into());
+        }
+        33 => {
+            // a closure made inside a call captures a name that was bound after its maker was defined
+            defs.push("mk2 = () => (x => x + kfw)".into());
+            defs.push("kfw = 5".into());
+            defs.push("f = mk2()".into());
+            expect = Some("3 + 5".into());
         }
         24 => {
             // ... and one nested inside a captured list / record
